@@ -12,4 +12,7 @@ BInit == AInit /\ steps = 0
 BNext == \E sym \in Symbols : BFeed(sym)
 BSpec == BInit /\ [][BNext]_<<avars, steps>>
 StepBound == steps < MaxSteps
+\* TLC evaluates the invariants also on the successors that StepBound cuts off (again for every predecessor);
+\* the costly one is therefore asked only of the states that are kept
+BTotal == steps < MaxSteps => Total
 =============================================================================
